@@ -141,6 +141,7 @@ def install_patches():
 
     sys.unraisablehook = hook
     threading.excepthook = lambda args: None
+    sys.meta_path.insert(0, _EvoFinder())
 
 
 # ---------------------------------------------------------------------------
@@ -199,6 +200,34 @@ def load_module(name):
     if parent:
         setattr(sys.modules[parent], name.rpartition(".")[2], mod)
     return mod
+
+
+class _EvoLoader:
+    """import-system loader over the same compiled-source cache: every evo
+    module a virtual process imports with a plain `import` statement gets its
+    body executed from the working tree, once per virtual process"""
+    def create_module(self, spec):
+        return None
+
+    def exec_module(self, module):
+        _, code, _ = _code_for(module.__name__)
+        exec(code, module.__dict__)
+
+
+class _EvoFinder:
+    def find_spec(self, name, path=None, target=None):
+        if current_vp() is None or not (name == "evo"
+                                        or name.startswith("evo.")):
+            return None
+        p, is_pkg = _locate(name)
+        if not os.path.isfile(p):
+            return None
+        spec = importlib.machinery.ModuleSpec(name, _EvoLoader(), origin=p,
+                                              is_package=is_pkg)
+        spec.has_location = True
+        if is_pkg:
+            spec.submodule_search_locations = [os.path.dirname(p)]
+        return spec
 
 
 PRELOAD_START = ("evo", "evo.tools", "evo.tools._typing",
